@@ -94,7 +94,7 @@ def r1(ctx):
                           tf == {"value": "snapshot.0.balance", "time": "snapshot.0.time_exchange"},
                           "initial balance must pair the snapshot's balance with the snapshot's time",
                           sites=[e["sp"]], got=r)
-    ctx.floor("stores to AssetState.balance", n, 3)
+    ctx.floor("stores to AssetState.balance", n, 2)
 
 
 def r2(ctx):
